@@ -381,6 +381,21 @@ class RefineDroplet(Contract):
         exp0 = [old.get("position").elems[j] for j in range(dim) if j not in cons] + [old.get("radius")]
         out.append(("the fit starts from the candidate's position and radius",
                     z3.And(*[to_real(x) == to_real(y) for x, y in zip(x0[: nfree + 1], exp0)])))
+        # ... and from the candidate's interface width: the width it carries (a width of exactly 0 included), the grid's typical discretization
+        # only when it carries none
+        if len(x0) > nfree + 1:
+            w_old = old.get("interface_width") if "interface_width" in old.fields else None
+            hgrid = c["grid"].h
+            if isinstance(w_old, SMaybeNaN):
+                want_w = z3.If(w_old.isnan, hgrid, w_old.val)
+            elif w_old is None:
+                want_w = hgrid
+            else:
+                want_w = to_real(w_old)
+            out.append(("the fit starts from the candidate's interface width (also a width of exactly 0); the grid's typical discretization only for an unset width",
+                        to_real(x0[nfree + 1]) == want_w))
+        else:
+            out.append(("the interface width is a fit parameter", False))
         fr = run.ghost.get("fit_region")
         out.append(("the fit region is the dilated binary image of the candidate", fr is not None))
         reds = [(cell, attr) for (cell, attr, r) in run.ghost.get("cell_reduction_list", [])]
@@ -399,6 +414,15 @@ class RefineDroplet(Contract):
             out.append(("the residual is formed with the intensity levels of the request: a supplied level is used as supplied, an automatic one is the "
                         "extreme over the fit region (shifting these two levels by a constant shifts the residual by the same constant)",
                         shifted == to_real(res0.v) + delta))
+            # ... and it is affine in the inside level with the outside level as offset: residual == vmin + (vmax - vmin) * profile - image, where
+            # profile := residual[vmax := vmin + 1] - residual[vmax := vmin].  Holds for EITHER sign of vmax - vmin (a droplet darker than its
+            # surroundings is a valid request when the levels are supplied and not fitted)
+            r_ = to_real(res0.v)
+            at = lambda e: z3.substitute(r_, (lv["vmax"], e))     # noqa: E731
+            prof = at(lv["vmin"] + 1) - at(lv["vmin"])
+            out.append(("the residual is vmin + (vmax - vmin) * profile - image for either sign of vmax - vmin (profile = residual at vmax = vmin + 1 minus "
+                        "residual at vmax = vmin; at vmax = vmin the residual is vmin - image)",
+                        z3.And(r_ == at(lv["vmin"]) + (lv["vmax"] - lv["vmin"]) * prof, at(lv["vmin"]) == lv["vmin"] - to_real(c["old_data_v"]))))
         else:
             out.append(("the residual is formed with the intensity levels of the request (supplied, or the extremes over the fit region)", False))
         if c.get("params0") is not None:
